@@ -11,6 +11,7 @@ view == vars
 EmitScenario ==
     IF fired' # fired
     THEN PrintT(<<"SCEN", ToJson([mode |-> Mode, phase |-> fired'[1].phase, traffic |-> Traffic, dc |-> Dc,
+                                   flaps |-> fired'[1].flaps,
                                    evs |-> [i \in 1..Len(fired') |-> fired'[i].ev],
                                    ats |-> [i \in 1..Len(fired') |-> fired'[i].at]])>>)
     ELSE TRUE
